@@ -802,6 +802,10 @@ class S:
     def arctan(self):
         return self._uf("atan")
 
+    def hypot(self, o):
+        o = o if isinstance(o, S) else S(toz(o))
+        return (self * self + o * o).sqrt()
+
     def cos(self):
         zs = z3.simplify(self.z)
         if z3.is_rational_value(zs) and zs.numerator_as_long() == 0:
